@@ -5,7 +5,7 @@ from ..arith import mk
 from . import base
 
 TRUSTED_BASE = base.TRUSTED_BASE + ['Python `&`, `|`, `^` on non-negative ints are modelled by Nat.land/lor/xor (core Lean)']
-ASSUMPTIONS = base.ASSUMPTIONS + ['quantifier: scalar Fxp with scalar Fxp / integer mask, and array with scalar mask; array-with-array operands are outside the statement (they raise TypeError on the pinned tree)']
+ASSUMPTIONS = base.ASSUMPTIONS + ['quantifier: scalar or array Fxp with scalar Fxp / integer mask; array-with-array operands are outside the statement (they raise TypeError on the pinned tree)']
 RULE = ('BW lines: ~x, x&y, x|y, x^y with y an Fxp of the same word length and either signedness, or an integer mask on either side (also negative and oversized masks); all code pairs for n_word<=4 (quick) / <=6 (thorough) x 4 signedness combinations x n_frac 0..n_word; '
         'boundary and random codes for n_word in {16,31,32,33,63,64,65,100,128}; different word lengths must raise. BL lines: ~~x, De Morgan and ~x=-x-LSB evaluated on the implementation itself. '
         'non-trivial = some operand negative or mixed signedness or mask outside [0,2^n)')
@@ -86,6 +86,10 @@ def generate(tier, rng):
                         for ca, cb in zip(a, b):
                             if rng.random() < (0.15 if tier == 'quick' else 0.5) or n <= 2:
                                 yield 'BW %s ff %s %s %s %s %s' % (op, fm(sx, n, f), fm(sy, n, rng.randint(0, n)), o, L([ca]), L([cb]))
+                    # array x with a scalar Fxp y of either signedness (every code of y for small words)
+                    for cb in range(loy, hiy + 1):
+                        if n <= 3 or rng.random() < 0.3:
+                            yield 'BW %s ff %s %s %s %s %s' % (rng.choice(['and', 'or', 'xor']), fm(sx, n, f), fm(sy, n, rng.randint(0, n)), rng.choice(OVFS), L(allx), L([cb]))
                     if n >= 2:
                         ca, cb = rng.choice(allx), rng.randint(loy, hiy)
                         yield 'BL %s %s %s %s' % (fm(sx, n, f), 's' if sy else 'u', L([ca]), L([cb]))
@@ -107,7 +111,8 @@ def generate(tier, rng):
         if what < 0.15:
             yield 'BW inv - %s %s %s %s []' % (fm(sx, n, f), fm(sx, n, f), o, L([ca]))
         elif what < 0.55:
-            yield 'BW %s ff %s %s %s %s %s' % (rng.choice(['and', 'or', 'xor']), fm(sx, n, f), fm(sy, n, rng.randint(0, n)), o, L([ca]), L([cb]))
+            xs = [ca] if rng.random() < 0.6 else [ca, pick(lox, hix), pick(lox, hix)]      # scalar or array x, scalar y
+            yield 'BW %s ff %s %s %s %s %s' % (rng.choice(['and', 'or', 'xor']), fm(sx, n, f), fm(sy, n, rng.randint(0, n)), o, L(xs), L([cb]))
         elif what < 0.75:
             m = rng.choice([rng.getrandbits(n), -rng.getrandbits(n), rng.getrandbits(n + 5), (1 << n) - 1, 1 << (n - 1)])
             yield 'BW %s %s %s %s %s %s %s' % (rng.choice(['and', 'or', 'xor']), rng.choice(['fm', 'mf']), fm(sx, n, f), fm(sx, n, f), o, L([ca]), L([m]))
